@@ -7,8 +7,48 @@ include!("common_db.rs");
 include!("img.rs");
 include!("store_common.rs");
 
-//@ harness: c12_duplicate_changes_nothing
+//@ harness: c12_deleted_id_changes_nothing
 //@ tier: quick
+//@ timeout: 700
+//@ mem: 20
+//@ covers: any
+//@ unwindset: put_bytes=80; heed::bytes_=260; heed::Table=6; memcmp.0=70; repeat::Repeat=190; Repeat.*try_fold=190; mmap_append=200; read_hex=34; enc_tags=6
+//@ cbmc: --max-field-sensitivity-array-size 1100
+//@ encodes: Store::store_event (deleted-id path), Lmdb::is_deleted, Lmdb::mark_deleted, Store::stats, heed model rollback
+//@ bounds: a store whose only content is an accepted deletion marker on one id (Lmdb::mark_deleted, committed - what handle_deletion_event records for an e tag whose target is not stored); storing an event with that id - kind 1 with one indexable tag, created_at arbitrary in 4096..=4351 (one arbitrary byte), arbitrary first author byte - is refused as deleted: no durable commit carried an effective put/delete (every committed table is what it was), the event is not retrievable, the marker is still there, and the statistics still count 0 index entries and 1 deleted id
+//@ outside: the other failure causes (duplicate, replaced, invalid delete: thorough tier), larger pre-states
+store_harness!(c12_deleted_id_changes_nothing, {
+    let store = verif_store();
+    {
+        let mut txn = ok!(store.indexes.write_txn());
+        ok!(store.indexes.mark_deleted(&mut txn, Id::from_bytes(ID_A)));
+        ok!(txn.commit());
+    }
+    let env = crate::lmdb::verif_db_lmdb_helper::env_of(&store.indexes);
+    let commits = heed::verif::mutating_commits(env);
+    let lo: u8 = kani::any();
+    let t: u64 = 0x1000 + lo as u64;
+    let mut pk = PK_1;
+    pk[0] = kani::any();
+    let mut b = [0u8; 170];
+    let n = enc_event_img(1, t, &ID_A, &pk, &SIG_0, &[&[1, 2]], b"eab", b"", &mut b);
+    let o = outcome(store.store_event(as_event(&b[..n])));
+    kani::cover!(lo == 0xff);
+    assert!(o == Outcome::Deleted);
+    assert!(heed::verif::mutating_commits(env) == commits, "a store that failed as deleted made a durable change");
+    assert!(!has(&store, &ID_A));
+    assert!(ok!(store.event_is_deleted(Id::from_bytes(ID_A))));
+    let s = ok!(store.stats());
+    let ix = &s.index_stats;
+    assert!(ix.i_index_entries == 0 && ix.ci_index_entries == 0 && ix.ac_index_entries == 0 && ix.akc_index_entries == 0);
+    assert!(ix.tc_index_entries == 0 && ix.atc_index_entries == 0 && ix.ktc_index_entries == 0);
+    assert!(ix.deleted_index_entries == 1 && ix.deleted_naddr_index_entries == 0);
+    core::mem::forget(s);
+    core::mem::forget(store);
+});
+
+//@ harness: c12_duplicate_changes_nothing
+//@ tier: thorough
 //@ timeout: 3000
 //@ mem: 20
 //@ covers: none
@@ -46,7 +86,7 @@ store_harness!(c12_duplicate_changes_nothing, {
 });
 
 //@ harness: c12_replaced_changes_nothing
-//@ tier: quick
+//@ tier: thorough
 //@ timeout: 3000
 //@ mem: 20
 //@ covers: none
@@ -74,3 +114,36 @@ store_harness!(c12_replaced_changes_nothing, {
     core::mem::forget(store);
 });
 
+
+//@ harness: c12_param_replaced_pending_removal
+//@ tier: thorough
+//@ timeout: 3000
+//@ mem: 20
+//@ covers: any
+//@ unwindset: put_bytes=80; heed::bytes_=260; heed::Table=6; memcmp.0=70; repeat::Repeat=190; Repeat.*try_fold=190; mmap_append=200; read_hex=34; enc_tags=6
+//@ cbmc: --max-field-sensitivity-array-size 1100
+//@ encodes: Store::store_event (parameterized path: deleted check, remove_parameterized_replaceable, find_parameterized_replaceable_event_inner, Replaced), Store::remove_by_offset, Lmdb::deindex, heed model rollback
+//@ bounds: one author, kind 30023: Z with d "b" (created_at 0x1010) and X with the tags [d a][d b] (created_at 0x10C0; its address is its first d value "a", but the author+tag index lists it under "b" too) are in the store (seeded); an event Y with d "b" and an ARBITRARY created_at below X's (one arbitrary byte; above and below Z's) is refused as replaced - when Y is newer than Z, AFTER the pre-removal has deleted Z's index entries inside the transaction. No durable commit carried an effective put/delete, so every committed table is exactly what it was; Z and X are still retrievable, Y is not
+//@ outside: other failure causes (c12_duplicate_changes_nothing, c12_replaced_changes_nothing), larger pre-states
+store_harness!(c12_param_replaced_pending_removal, {
+    let store = verif_store();
+    let mut bz = [0u8; 170];
+    let nz = enc_event_img(30023, 0x1010, &ID_A, &PK_1, &SIG_0, &[&[1, 1]], b"db", b"", &mut bz);
+    let mut bx = [0u8; 180];
+    let nx = enc_event_img(30023, 0x10C0, &ID_B, &PK_1, &SIG_0, &[&[1, 1], &[1, 1]], b"dadb", b"", &mut bx);
+    let _ = seed_stored(&store, as_event(&bz[..nz]));
+    let _ = seed_stored(&store, as_event(&bx[..nx]));
+    let env = crate::lmdb::verif_db_lmdb_helper::env_of(&store.indexes);
+    let commits = heed::verif::mutating_commits(env);
+    let lo: u8 = kani::any();
+    let t: u64 = 0x1000 + lo as u64;
+    kani::assume(t < 0x10C0 && t != 0x1010);
+    let mut by = [0u8; 170];
+    let ny = enc_event_img(30023, t, &ID_C, &PK_1, &SIG_0, &[&[1, 1]], b"db", b"", &mut by);
+    let o = outcome(store.store_event(as_event(&by[..ny])));
+    kani::cover!(t > 0x1010);
+    assert!(o == Outcome::Replaced);
+    assert!(heed::verif::mutating_commits(env) == commits, "a store that failed as replaced made its pre-removal durable");
+    assert!(has(&store, &ID_A) && has(&store, &ID_B) && !has(&store, &ID_C));
+    core::mem::forget(store);
+});
